@@ -63,6 +63,8 @@ def run(chk):
             for n in walk([f.d.get("body"), f.d.get("inits")]):
                 if n.get("k") == "ref" and n.get("rk") in ("global", "static_local", "class_static", "tls") and n.get("q"):
                     key = n["q"] + ("@" + f.q if n.get("rk") == "static_local" else "")
+                    if n.get("rk") == "tls" and (n["q"] + "@" + f.q) in lib_statics:
+                        key = n["q"] + "@" + f.q        # a thread_local static local of this function
                     if key not in lib_statics and n["q"] in lib_statics:
                         key = n["q"]
                     refs.setdefault(key, set()).add(usr)
